@@ -240,6 +240,9 @@ func (fr *Frame) callAbstract(in ssa.Instruction, f *ssa.Function, sig *types.Si
 		nw := c.fresh("W", "Int")
 		c.assume(le(w, nw))
 		fr.cur.set("W", nw)
+		if c.onHavoc != nil {
+			c.onHavoc(fr.cur)
+		}
 	}
 	return fr.freshResults(sig)
 }
@@ -315,7 +318,7 @@ func (fr *Frame) callContract(in ssa.Instruction, f *ssa.Function, ct *Contract,
 		fr.oblige("pre", "receiver of "+key+" is non-nil", in, not(eq(args[0], "0")))
 	}
 	for _, cl := range ct.Clauses {
-		if cl.Kind != "requires" {
+		if cl.Kind != "requires" && cl.Kind != "preserves" {
 			continue
 		}
 		for _, cj := range splitConj(cl.Expr) {
@@ -349,7 +352,7 @@ func (fr *Frame) callContract(in ssa.Instruction, f *ssa.Function, ct *Contract,
 		rv["result"] = rv["r0"]
 	}
 	for _, cl := range ct.Clauses {
-		if cl.Kind != "ensures" {
+		if cl.Kind != "ensures" && cl.Kind != "preserves" {
 			continue
 		}
 		se := callee.specEnvFor(post, pre, rv, false)
@@ -390,6 +393,9 @@ func (callee *Frame) havocModifies(ct *Contract, pre, post *State, vars map[stri
 		nw := c.fresh("W", "Int")
 		c.assume(le(w, nw))
 		post.set("W", nw)
+		if c.onHavoc != nil {
+			c.onHavoc(post)
+		}
 		return
 	}
 	// allocation may always happen
@@ -494,7 +500,7 @@ func (callee *Frame) havocLoc(loc *Spec, pre, post *State, vars map[string]sval)
 		}
 		post.set(li.comp, c.define("hv", es, app("store", arr, li.ref, nv)))
 	case "region":
-		for _, comp := range []string{"M", "MS"} {
+		for _, comp := range memAll {
 			m := post.get(comp)
 			na := c.fresh("hv."+comp, elemOfArraySort(compSorts[comp]))
 			post.set(comp, c.define("hv", compSorts[comp], app("store", m, li.reg, na)))
@@ -532,7 +538,9 @@ func contractModComps(x *Exec, ct *Contract, f *ssa.Function) []string {
 			func() {
 				defer func() {
 					if r := recover(); r != nil {
-						out["M"], out["MS"] = true, true
+						for _, k := range memAll {
+							out[k] = true
+						}
 					}
 				}()
 				li := fr.evalLoc(loc, st, vars)
@@ -540,7 +548,9 @@ func contractModComps(x *Exec, ct *Contract, f *ssa.Function) []string {
 				case "heap":
 					out["*"] = true
 				case "region":
-					out["M"], out["MS"] = true, true
+					for _, k := range memAll {
+						out[k] = true
+					}
 				default:
 					out[li.comp] = true
 				}
@@ -724,7 +734,7 @@ func (fr *Frame) builtin(in ssa.Instruction, b *ssa.Builtin, cc *ssa.CallCommon)
 		}
 		return []Term{ite(le(a, bb), bb, a)}
 	case "ssa:deferstack":
-		return []Term{"0"}
+		return []Term{zeroOf(cc.Signature().Results().At(0).Type())}
 	}
 	c.note("builtin " + b.Name() + " abstracted")
 	return fr.freshResults(cc.Signature())
